@@ -41,6 +41,8 @@
 (* afresh, WITH tables stay.  At `end` brackets must be closed and nothing *)
 (* may be left unresolved.  `use t` needs t among the WITH tables of the   *)
 (* frames on the stack or among the tables created by earlier statements.  *)
+(* One WITH list must not define a name twice (`with-dup`) and one query   *)
+(* level must not introduce an alias twice (`alias-dup`).                   *)
 (* Any `ph` is an error.  The first error is kept (absorbing).             *)
 (***************************************************************************)
 EXTENDS Naturals, Integers, Sequences, FiniteSets, TLC
@@ -106,8 +108,14 @@ DoWith(s, t, rec) ==
   LET u == IF Top(s).depth = Depth(s) THEN s
            ELSE Push(s, Frame(Depth(s), FALSE))
       f == Top(u)
-  IN IF rec THEN SetTop(u, [f EXCEPT !.withs = @ \cup {t}])
+  IN IF t \in f.withs \/ t = f.pend THEN Fail(s, "with-dup", t)
+     ELSE IF rec THEN SetTop(u, [f EXCEPT !.withs = @ \cup {t}])
      ELSE SetTop(u, [f EXCEPT !.pend = t])
+
+(* Two items of one from-list must not introduce the same alias.           *)
+DoAlias(s, a) ==
+  IF a \in Top(s).defs THEN Fail(s, "alias-dup", a)
+  ELSE SetTop(s, [Top(s) EXCEPT !.defs = @ \cup {a}])
 
 DoUse(s, t) ==
   IF t \in Visible(s) THEN s ELSE Fail(s, "with-order", t)
@@ -126,7 +134,7 @@ Apply(s0, e) ==
          [] e[1] = "select"  -> DoSelect(s)
          [] e[1] = "from"    -> s
          [] e[1] = "union"   -> DoUnion(s)
-         [] e[1] = "alias"   -> SetTop(s, [Top(s) EXCEPT !.defs = @ \cup {e[2]}])
+         [] e[1] = "alias"   -> DoAlias(s, e[2])
          [] e[1] = "ref"     -> SetTop(s, [Top(s) EXCEPT !.refs = @ \cup {e[2]}])
          [] e[1] = "with"    -> DoWith(s, e[2], FALSE)
          [] e[1] = "withrec" -> DoWith(s, e[2], TRUE)
